@@ -85,6 +85,9 @@ def _run_batch1(scenarios, workdir, timeout_per=60):
 def load_trace(outdir, sid):
     p = os.path.join(outdir, sid + ".ndjson")
     if not os.path.exists(p):
+        # the process died: what it streamed until then
+        p = os.path.join(outdir, sid + ".partial.ndjson")
+    if not os.path.exists(p):
         return None
     return traceprep.load_ndjson(p)
 
